@@ -268,6 +268,8 @@ type harnessReport struct {
 	Queries      int               `json:"queries"`
 	SolverSecs   float64           `json:"solver_s"`
 	Unknowns     int               `json:"unknowns"`
+	Fallbacks    int               `json:"portfolio_fallbacks"`
+	FallbackSaved int              `json:"portfolio_decided"`
 	SolverErrors []string          `json:"solver_errors"`
 	Instr        int64             `json:"instructions"`
 	Funcs        map[string]int64  `json:"functions"`
@@ -327,7 +329,11 @@ func (e *engine) explore(spec string) *harnessReport {
 	seenVio := map[string]bool{}
 
 	worker := func(id int) {
-		sol, err := NewSolver(e.cfg.Solver, e.cfg.TimeoutMs, "")
+		lp := ""
+		if d := os.Getenv("GSE_SMTLOG"); d != "" {
+			lp = fmt.Sprintf("%s/worker-%d.smt2", d, id)
+		}
+		sol, err := NewSolver(e.cfg.Solver, e.cfg.TimeoutMs, lp)
 		if err != nil {
 			mu.Lock()
 			rep.Problems = append(rep.Problems, "solver: "+err.Error())
@@ -339,6 +345,8 @@ func (e *engine) explore(spec string) *harnessReport {
 			rep.Queries += sol.Queries
 			rep.SolverSecs += sol.Time.Seconds()
 			rep.SolverErrors = append(rep.SolverErrors, sol.Errors...)
+			rep.Fallbacks += sol.Fallbacks
+			rep.FallbackSaved += sol.FallbackSaved
 			mu.Unlock()
 			sol.Close()
 		}()
